@@ -34,10 +34,11 @@ Local Open Scope N_scope.
    a bit outside names[] is set); false = fixed code (one pass). *)
 Definition OSDEV_PRINT_WHILE : bool := true.
 
-(* traversal.c:314  hwloc__type_match: false = the code as it is (keeps
-   comparing after the terminator of the literal when the caller's byte is
-   0xE0 = (char)('\0' + 'A' - 'a')); true = fixed code (`!*t ||` first). *)
-Definition TYPE_MATCH_STOPS_AT_LITERAL_END : bool := false.
+(* traversal.c:314  hwloc__type_match: true = the current code (/repo c06b512,
+   `if (!*t || ( *s != *t && ...))`); false = the code before that fix, which kept
+   comparing after the terminator of the literal when the caller's byte was
+   0xE0 = (char)('\0' + 'A' - 'a') and read past the literal. *)
+Definition TYPE_MATCH_STOPS_AT_LITERAL_END : bool := true.
 
 (* ------------------------------------------------------------------ *)
 (* number formatting: %u / %llu / %d / %0<w>x *)
@@ -81,7 +82,7 @@ Definition tcache (t : N) : bool := if t <? HWLOC_OBJ_TYPE_MAX then is_cache t e
 
      for(i=0, s=string, t=type; ; i++, s++, t++) {
        if (!*s) return i<minmatch ? NULL : s;
-       if ( *s != *t && *s != *t + 'A' - 'a') {
+       if (!*t || ( *s != *t && *s != *t + 'A' - 'a')) {       -- `!*t ||` since /repo c06b512 (chk)
          if (letter or '-') return NULL;
          return i<minmatch ? NULL : s;
        }
@@ -296,6 +297,9 @@ End Variants.
 Definition type_match_cur := type_match TYPE_MATCH_STOPS_AT_LITERAL_END.
 Definition type_sscanf_cur := type_sscanf TYPE_MATCH_STOPS_AT_LITERAL_END.
 Definition type_sscanf_vals_cur := type_sscanf_vals TYPE_MATCH_STOPS_AT_LITERAL_END.
+
+(* sizeof(union hwloc_obj_attr_u), for the driver *)
+Definition attr_union_size : N := SIZEOF_ATTR_UNION.
 
 (* the five numbers the translator prints for a dictionary word (full-size union) *)
 Definition sscanf_canon (r : res (option (N * attr_write))) : option (Z * N * Z * Z) :=
